@@ -101,7 +101,8 @@ B2Txt(lam, x, y) == CASE lam = "add" -> x \o " + " \o y [] lam = "tup" -> "<<" \
 A1Txt(lam) == CASE lam = "set9" -> "9" [] lam = "inc" -> "@ + 1" [] lam = "id" -> "@" [] lam = "app0" -> "Append(@, 0)"
 
 (* ======================================================================== operators *)
-Force(S) == {zx \in S : TRUE}      \* an interval prints as a..b; force the enumerated form
+Force(S) == {zx \in S : TRUE}      \* TLC keeps a..b, SUBSET S, [S -> T], S \X T, S \cup T ... symbolic (and compares
+                                   \* some of them symbolically); force the enumerated set
 
 Apply(op, lam, v) ==
   CASE op = "TRUE" -> TRUE [] op = "FALSE" -> FALSE [] op = "BOOLEAN" -> BOOLEAN [] op = "Zero" -> 0
@@ -117,9 +118,9 @@ Apply(op, lam, v) ==
     [] op = "Div" -> v[1] \div v[2]      [] op = "Mod" -> v[1] % v[2]
     [] op = "Neg" -> -v[1]
     [] op = "In" -> v[1] \in v[2]        [] op = "NotIn" -> v[1] \notin v[2]
-    [] op = "Intersect" -> v[1] \cap v[2] [] op = "Union" -> v[1] \cup v[2]
-    [] op = "SubsetEq" -> v[1] \subseteq v[2] [] op = "SetMinus" -> v[1] \ v[2]
-    [] op = "SUBSET" -> SUBSET v[1]      [] op = "UNION" -> UNION v[1]
+    [] op = "Intersect" -> Force(v[1] \cap v[2]) [] op = "Union" -> Force(v[1] \cup v[2])
+    [] op = "SubsetEq" -> v[1] \subseteq v[2] [] op = "SetMinus" -> Force(v[1] \ v[2])
+    [] op = "SUBSET" -> Force(SUBSET v[1]) [] op = "UNION" -> Force(UNION v[1])
     [] op = "IsFiniteSet" -> IsFiniteSet(v[1]) [] op = "Cardinality" -> Cardinality(v[1])
     [] op = "InSeq" -> v[1] \in Seq(v[2])
     [] op = "Len" -> Len(v[1])           [] op = "Concat" -> v[1] \o v[2]
@@ -141,13 +142,13 @@ Apply(op, lam, v) ==
     [] op = "Refine" -> {zx \in v[1] : P1(lam, zx)}
     [] op = "Compr1" -> {B1(lam, zx) : zx \in v[1]}
     [] op = "Compr2" -> {B2(lam, zx, zy) : zx \in v[1], zy \in v[2]}
-    [] op = "Cross2" -> v[1] \X v[2]     [] op = "Cross3" -> v[1] \X v[2] \X v[3]
+    [] op = "Cross2" -> Force(v[1] \X v[2]) [] op = "Cross3" -> Force(v[1] \X v[2] \X v[3])
     [] op = "Choose" -> CHOOSE zx \in v[1] : P1(lam, zx)
     [] op = "ChooseAny" -> {zx \in v[1] : P1(lam, zx)}   \* the admissible witnesses
     [] op = "MkFn1" -> [zx \in v[1] |-> B1(lam, zx)]
     [] op = "MkFn2" -> [zx \in v[1], zy \in v[2] |-> B2(lam, zx, zy)]
-    [] op = "RecSet2" -> [a : v[1], b : v[2]]
-    [] op = "FnSet" -> [v[1] -> v[2]]
+    [] op = "RecSet2" -> Force([a : v[1], b : v[2]])
+    [] op = "FnSet" -> Force([v[1] -> v[2]])
     [] op = "SelectAll" -> v[1]                          \* the selected elements must cover the set
     [] op = "SelectOOR" -> v[1]
 
@@ -299,7 +300,7 @@ QuantFams(op) ==
      F(op, "gt1", "set(str)", <<SetsS>>, "part", ""), F(op, "card1", "set(int)", <<SetsISmall>>, "part", ""),
      F(op, "true", "int", <<IntsSmall>>, "err", ""), F(op, "true", "tup", <<TupsI>>, "err", "") >>
 Quant2Fams(op) == <<
-  F(op, "lt", "set(int),set(int)", <<SetsI, SetsI>>, "ok", ""), F(op, "sum3", "set(int),set(int)", <<SetsI, SetsI>>, "ok", ""),
+  F(op, "lt", "set(int),set(int)", <<SetsI, SetsI>>, "ok", ""), F(op, "sum3", "set(int),set(int)", <<Take(SetsI, 10), Take(SetsI, 10)>>, "ok", ""),
   F(op, "neq", "set(str),set(str)", <<SetsS, SetsS>>, "ok", ""),
   F(op, "lt", "set,int", <<SetsISmall, IntsSmall>>, "err", "") >>
 B1Lams == <<"inc", "pair", "sing", "mod2", "id", "const7">>
@@ -330,8 +331,9 @@ Families == FlatSeq(<<
      Un("Neg", "set", SetsISmall, "err", "") >>,
   CmpFams("Le"), CmpFams("Ge"), CmpFams("Lt"), CmpFams("Gt"),
   << F("DotDot", "", "int,int", <<IntsSmall, IntsSmall>>, "ok", ""),
-     FT("DotDot", "", "int,int(edge)", << <<TI(MaxInt - 1), TI(MaxInt)>>, <<TI(MaxInt), TI(MaxInt)>>, <<TI(MaxInt), TI(MaxInt - 1)>>,
-            <<TI(MinInt), TI(MinInt + 1)>>, <<TI(MinInt), TI(MinInt)>>, <<TI(MaxInt), TI(MinInt)>>, <<TI(MaxInt - 2), TI(MaxInt)>> >>, "ok", ""),
+     \* (an interval whose upper bound is MaxInt cannot be enumerated by TLC itself, so it is not in the table)
+     FT("DotDot", "", "int,int(edge)", << <<TI(MaxInt), TI(MaxInt - 1)>>, <<TI(MinInt), TI(MinInt + 1)>>, <<TI(MinInt), TI(MinInt)>>,
+            <<TI(MaxInt), TI(MinInt)>>, <<TI(MaxInt - 3), TI(MaxInt - 1)>>, <<TI(3), TI(MinInt)>> >>, "ok", ""),
      F("DotDot", "", "int,str", <<IntsSmall, Strs>>, "err", ""), F("DotDot", "", "set,int", <<SetsISmall, IntsSmall>>, "err", "") >>,
   InFams("In"), InFams("NotIn"),
   SetBinFams("Intersect"), SetBinFams("Union"), SetBinFams("SubsetEq"), SetBinFams("SetMinus"),
@@ -447,13 +449,13 @@ RowsOfFam(zf) ==
                 args |-> RowArgs(f, tups[zk]),
                 keep |-> IF f.op \in {"Choose", "ChooseAny"} /\ f.mode = "part" THEN Keep(f.op, f.lam, vals) ELSE TRUE,
                 def |-> IF f.mode = "ok" THEN TRUE ELSE IF f.mode = "err" THEN FALSE
-                        ELSE IF f.op = "ChooseAny" THEN TRUE ELSE Def(f.op, f.lam, vals),
-                txt |-> RowTxt(f.op, f.lam, [zi \in 1..Len(tups[zk]) |-> Txt(tups[zk][zi])])]]
+                        ELSE IF f.op = "ChooseAny" THEN TRUE ELSE Def(f.op, f.lam, vals)]]
   IN SelectSeq(all, LAMBDA r : r.keep)
 
 Rows == FlatSeq([zf \in 1..Len(Families) |-> RowsOfFam(zf)])
 NRows == Len(Rows)
 
+TxtOf(r) == RowTxt(r.op, r.lam, [zi \in 1..Len(r.args) |-> Txt(r.args[zi])])   \* TLA+ source text of the row
 RowVals(r) == [zi \in 1..Len(r.args) |-> Val(r.args[zi])]
 Expected(zi) == Apply(Rows[zi].op, Rows[zi].lam, RowVals(Rows[zi]))
 
@@ -464,7 +466,7 @@ Export ==
   /\ ndJsonSerialize("rows.ndjson",
         [zi \in 1..NRows |-> [id |-> zi, fam |-> Rows[zi].fam, op |-> Rows[zi].op, lam |-> Rows[zi].lam, cls |-> Rows[zi].cls,
                               restr |-> Rows[zi].restr, mode |-> Rows[zi].mode, def |-> Rows[zi].def,
-                              args |-> Rows[zi].args, txt |-> Rows[zi].txt, exp |-> ExpStr[zi]]])
+                              args |-> Rows[zi].args, txt |-> TxtOf(Rows[zi]), exp |-> ExpStr[zi]]])
   /\ PrintT(<<"C03 rows", NRows, "families", Len(Families)>>)
 
 (* The design-level model: one initial state per row.  On every defined row of an operator whose *)
@@ -481,7 +483,7 @@ VARIABLE row
 OInit == row \in 1..NRows
 ONext == UNCHANGED row
 PrintCanonical ==
-  (Rows[row].def /\ Rows[row].op \in CanonOps) =>
+  (Rows[row].def /\ Rows[row].op \in CanonOps /\ Rows[row].cls # "set(int),set(str)") =>
      \A zj \in (row + 1)..MinN(row + 24, NRows) :
         (Rows[zj].fam = Rows[row].fam /\ Rows[zj].def) =>
            ((ExpStr[row] = ExpStr[zj]) <=> (Expected(row) = Expected(zj)))
